@@ -11,8 +11,9 @@
    exercises both.
    Hypotheses:  NoDup keys — the lists denote Go maps;  [params_wf] — the Go types (uint16
    flags and int keys, int32 sequence id, uint8 protocol id, strings are byte strings);
-   [info_size < 2^32] — Encode compares uint32(size) with MaxHeaderSize, so a header info of
-   4 GiB or more is outside every statement but [C06_enc_fail_iff].  The limits the format
+   [info_size < 2^32] — kept where the proofs were first made under it: Encode used to compare
+   uint32(size) with MaxHeaderSize; since the repair of /repo it compares the int, and
+   [C06_enc_fail_iff] / [C06_enc_size_statement_holds] state the size clause without it.  The limits the format
    itself imposes on a frame (every key/value shorter than 65536 bytes, fewer than 65536
    entries: [fits16b]) are CONSEQUENCES of a successful Encode (C06_enc_ok_fits16), so the
    uint16 truncations in writeKVInfo / WriteString2BLen never act on a frame Encode returns. *)
@@ -28,12 +29,13 @@ Theorem C06_consts :
   c_streaming = L_streaming.
 Proof. exact consts_ok. Qed.
 
-(* Encode never panics; it fails exactly when uint32(header-info size) > 65536, where the size
-   is 2 + the sections + padding to a multiple of 4 ([info_size], Spec/FrameLayout.v) *)
+(* Encode never panics; it fails exactly when the header-info size exceeds 65536, where the size
+   is 2 + the sections + padding to a multiple of 4 ([info_size], Spec/FrameLayout.v) — for EVERY
+   size (no 32-bit truncation any more) *)
 Theorem C06_enc_fail_iff : forall tl p,
   NoDup (keys (p_str p)) ->
-  ((exists e, encode tl p = Err e) <-> L_max < info_size (p_int p) (p_str p) mod two32) /\
-  ((exists b, encode tl p = Ok b) <-> info_size (p_int p) (p_str p) mod two32 <= L_max).
+  ((exists e, encode tl p = Err e) <-> L_max < info_size (p_int p) (p_str p)) /\
+  ((exists b, encode tl p = Ok b) <-> info_size (p_int p) (p_str p) <= L_max).
 Proof. exact p_enc_fail_iff. Qed.
 
 Theorem C06_enc_fail_iff_nowrap : forall tl p,
@@ -50,24 +52,16 @@ Theorem C06_enc_layout : forall tl p b,
   info_size (p_int p) (p_str p) <= L_max.
 Proof. exact enc_layout. Qed.
 
-(* why [info_size < 2^32] is a hypothesis and not a consequence: Encode converts the size to
-   uint32 before comparing it with MaxHeaderSize.  The size clause of the layout WITHOUT that
-   hypothesis is false on the code as written: with 65536 int keys carrying 65532-byte values the
-   header info is 2^32 + 8 bytes and Encode reports success (confirmed against the real Encode
-   with a counting writer, notes/findings_tth.txt).  Far outside the property's quantifier
-   ("sizes up to and just past the 65536 limit"); C06_enc_layout is the statement that holds. *)
+(* the size clause of the layout, unconditionally.  It was FALSE of the code as first pinned (Encode
+   compared uint32(size): with 65536 int keys carrying 65532-byte values the header info is 2^32 + 8
+   bytes and Encode reported success; this file then carried C06_enc_size_statement_refuted and
+   C06_enc_wrap) and holds since the repair of /repo (the comparison is made on the int) *)
 Definition C06_enc_size_statement : Prop :=
   forall tl p b, NoDup (keys (p_str p)) -> params_wf p -> encode tl p = Ok b ->
                  info_size (p_int p) (p_str p) <= L_max.
 
-Theorem C06_enc_size_statement_refuted : ~ C06_enc_size_statement.
-Proof. exact enc_size_statement_refuted. Qed.
-
-Theorem C06_enc_wrap : forall tl p,
-  NoDup (keys (p_str p)) ->
-  L_max < info_size (p_int p) (p_str p) -> info_size (p_int p) (p_str p) mod two32 <= L_max ->
-  exists b, encode tl p = Ok b /\ len b = L_meta + info_size (p_int p) (p_str p).
-Proof. exact enc_wrap. Qed.
+Theorem C06_enc_size_statement_holds : C06_enc_size_statement.
+Proof. exact enc_size_statement_holds. Qed.
 
 (* success implies that every length and count fits its 16-bit field *)
 Theorem C06_enc_ok_fits16 : forall tl p b,
